@@ -18,7 +18,9 @@
 (*     shows its complete old or its complete new state - objects are      *)
 (*     judged one by one (save_all writes one bucket after the other);     *)
 (*   - the store is usable: one more save followed by a reload succeeds;   *)
-(*   - leftover temporary files are simply part of the directories.        *)
+(*   - leftover temporary files are simply part of the directories (and of  *)
+(*     the directories that second-stage histories start from);            *)
+(*   - per case: the COMPLETED save shows exactly the new state (NewOk).   *)
 (* Old and New are what the same recovery code shows on the directory      *)
 (* before the save and after the completed save; projections are compared  *)
 (* as canonical strings.  Total and resynchronising by construction: every *)
@@ -107,6 +109,45 @@ DevF06d(e) ==
   /\ \E i \in 1..Len(e.disk) : e.disk[i].name = "extract_bu" /\ Torn(e.disk[i])
   /\ IsPrefixOf(e.res.segs, hdr.new.segs)
 
+(***************************************************************************)
+(* The COMPLETED save: reopening after it must show exactly the state the  *)
+(* save was asked to persist (crash position = end, everything arrived).   *)
+(* Judged once per case, at its header, from what the driver recorded:     *)
+(* mem_new / mem_pre = the in-memory state read through the public API     *)
+(* after / before the save call, old = recovery of the directory before    *)
+(* the save, save = result and inputs of the save call.  What a save is    *)
+(* asked to persist:                                                       *)
+(*   lru, res   the in-memory table / database;                            *)
+(*   index      save_all, flush_all_updates: every bucket as in memory;    *)
+(*              "addf" (add_entry on a full update section): bucket 03 as  *)
+(*              it was BEFORE the call (the section is flushed and saved,  *)
+(*              then the new entry goes to the empty section), the other   *)
+(*              buckets stay as they were on disk;                         *)
+(*   disk       the entry of the key that was put = the value handed to    *)
+(*              put, every other entry as before, size = number of entries;*)
+(*   journal    record_segment: the segments on disk followed by the new   *)
+(*              one; save(): the segments held in memory.                  *)
+(* Not judged when the save itself reported an error.                      *)
+(***************************************************************************)
+LastOp(h) == h.ops[Len(h.ops)]
+ExpObj(h, o) ==     \* the admissible values of object o after the completed save
+  CASE h.routine = "index" /\ LastOp(h) = "addf" ->
+         \* (when the section was not full the call saves nothing: everything stays as it was on disk)
+         IF o = "bucket03" THEN {Val(h.mem_pre, o), Val(h.old.proj, o)} ELSE {Val(h.old.proj, o)}
+    [] h.routine = "disk" ->
+         IF o = "entry:" \o h.save.k THEN {h.save.val}
+         ELSE IF o = "size"
+              THEN {ToString(h.old.sizen + (IF Val(h.old.proj, "entry:" \o h.save.k) = "none" THEN 1 ELSE 0))}
+              ELSE {Val(h.old.proj, o)}
+    [] OTHER -> {Val(h.mem_new, o)}
+NewOk(h) ==
+  IF ~h.save.ok THEN TRUE
+  ELSE /\ h.new.ok /\ ~Has(h.new, "panic")
+       /\ IF h.routine = "journal"
+          THEN h.new.segs = (IF LastOp(h) = "wsave" THEN h.mem_segs ELSE h.old.segs \o <<h.save.seg>>)
+          ELSE \A o \in (DOMAIN h.new.proj) \cup (DOMAIN h.mem_new) \cup (DOMAIN h.old.proj) :
+                  Val(h.new.proj, o) \in ExpObj(h, o)
+
 TInit == /\ l = 1 /\ hdr = [routine |-> ""] /\ seq = 0 /\ viol = <<>> /\ nDevA = 0 /\ nDevB = 0 /\ nDevD = 0
          /\ firstDev = <<>>
          /\ nOld = 0 /\ nNew = 0 /\ nSame = 0 /\ nStrictBad = 0
@@ -116,7 +157,8 @@ Step ==
   /\ LET e == Rec[l] IN
      IF e.op = "new" THEN
         /\ hdr' = e /\ seq' = 0
-        /\ UNCHANGED <<viol, nDevA, nDevB, nDevD, firstDev, nOld, nNew, nSame, nStrictBad>>
+        /\ viol' = IF NewOk(e) THEN viol ELSE Append(viol, l)
+        /\ UNCHANGED <<nDevA, nDevB, nDevD, firstDev, nOld, nNew, nSame, nStrictBad>>
      ELSE IF e.op = "hang" THEN     \* the recovery never returned (driver watchdog)
         /\ viol' = Append(viol, l)
         /\ UNCHANGED <<hdr, seq, nDevA, nDevB, nDevD, firstDev, nOld, nNew, nSame, nStrictBad>>
